@@ -33,6 +33,49 @@ READ_FAULTS = ('eio_open', 'eio_read', 'short_read', 'vanish')
 DAMAGE_KINDS = ('truncate', 'empty', 'zero_tail', 'ff_tail', 'rand_tail', 'text', 'bitflip', 'prepend', 'drop_head')
 
 
+def rich_metadata(seed: int) -> dict:
+    import datetime
+    import decimal
+    import fractions
+    import pathlib
+
+    menu = [
+        ('date', datetime.date(2020, 1, 2 + seed % 20)), ('path', pathlib.PurePosixPath('runs') / f'md{seed % 7}'), ('decimal', decimal.Decimal('1.5') + seed % 3),
+        ('fraction', fractions.Fraction(1 + seed % 5, 3)), ('complex', complex(1, seed % 4)), ('bytes', bytes([seed % 250, 1, 2])), ('tuple', (1, 'a', (2.5, None))),
+        ('nested', {'a': [1, 2, {'b': seed % 9}]}), ('np32', np.float32(0.25 + seed % 2)), ('nparr', np.arange(3 + seed % 3)), ('frozenset', frozenset({1, seed % 6})),
+        ('timedelta', datetime.timedelta(seconds=seed % 100)),
+    ]
+    k = 1 + seed % 4
+    start = seed % len(menu)
+    return {f'note_{name}': val for name, val in (menu[(start + i) % len(menu)] for i in range(k))}
+
+
+def sized_copies(src, target: int, measure):
+    """Up to three copies of ``src`` whose cache files are as close as possible to ``target`` bytes on disk (padding a
+    metadata string by m-1, m, m+1 characters).  ``measure(obj)`` returns the size of the file the library writes for
+    obj - whatever protocol or format it uses.  Neighbours are included because a defect may make the exact size
+    unreachable on disk."""
+    obj = copy.deepcopy(src)
+    obj.metadata = dict(obj.metadata, pad='x' * 300)  # beyond the 1-byte -> 4-byte string length switch at 256
+    best = None
+    for _ in range(6):
+        d = target - measure(obj)
+        m = len(obj.metadata['pad'])
+        if best is None or abs(d) < best[0]:
+            best = (abs(d), m)
+        if d == 0 or m + d < 300:
+            break
+        obj.metadata['pad'] = 'x' * (m + d)
+    if best is None or best[0] > 64:
+        return []
+    out = []
+    for m in (best[1] - 1, best[1] + 1, best[1]):
+        o = copy.deepcopy(src)
+        o.metadata = dict(o.metadata, pad='x' * max(300, m))
+        out.append(o)
+    return out
+
+
 def setup():
     warnings.filterwarnings('ignore')
     import MDAnalysis  # noqa: F401
@@ -162,6 +205,7 @@ def generate(run_seed: int, tier: str = 'quick', stream: str = 'seq') -> dict:
         'RELOAD': rng.uniform(0.3, 1.5),
         'DELETE': rng.uniform(0.1, 1.0),
         'RESAVE_FAULT': rng.uniform(0.2, 1.2) if wf else 0,
+        'SAVE_SIZED': rng.uniform(0.1, 0.7),
     }
     n_ops = rng.randint(4, 25 if tier == 'quick' else 40)
     ops = []
@@ -228,11 +272,23 @@ def generate(run_seed: int, tier: str = 'quick', stream: str = 'seq') -> dict:
             last_save.update(slot=slot, src=src)
             ops.append({
                 'op': 'SAVE', 'src': src, 'slot': slot,
-                'derive': rng.pick([None, None, 'slice', 'filter', 'disp', 'flip_inplace', 'extend_inplace', 'slice']), 'fault': f,
+                'derive': rng.pick([None, None, 'slice', 'filter', 'disp', 'flip_inplace', 'extend_inplace', 'slice', 'rich_metadata']), 'fault': f,
             })
+            if ops[-1]['derive'] == 'rich_metadata':
+                ops[-1]['seed'] = rng.getrandbits(16)
+
             saves += 1
             if f and f['kind'] == 'crash_write':
                 ops.append({'op': 'RESTART'})
+        elif kind == 'SAVE_SIZED':
+            # a cache file whose size sits on / next to a typical buffer or chunk size (4 KiB ... 2 MiB), saved and read back
+            slot = rng.randrange(4)
+            k = rng.weighted({12: 2, 13: 1, 14: 1, 15: 1, 16: 2, 17: 1, 18: 1, 19: 1, 20: 3, 21: 1})
+            ops.append({'op': 'SAVE', 'src': rng.randrange(8), 'slot': slot, 'derive': 'sized', 'fault': None,
+                        'size_target': (1 << k) + rng.weighted({-2: 1, -1: 2, 0: 2, 1: 2, 2: 1})})
+            ops.append({'op': 'RELOAD', 'slot': slot, 'fault': None})
+            last_save.update(slot=slot)
+            saves += 1
         elif kind == 'RESAVE_FAULT':
             # overwrite an existing, complete save with a changed object and fail in the middle of the write:
             # afterwards the file must hold the old object, the new one, or be unreadable - never a mixture
@@ -727,6 +783,38 @@ class Run:
                     src.to_displacements()
             elif dv == 'extend_inplace' and len(src) > 2 and len(src) < 64 and src.site_properties is None:
                 src.extend(src[1:3])
+            elif dv == 'rich_metadata':  # free-form annotations of many types must survive the round trip as well
+                obj = copy.deepcopy(src)
+                obj.metadata = dict(obj.metadata, **rich_metadata(op.get('seed', 0)))
+            elif dv == 'sized':  # serialised size placed on / next to a power of two (buffer and chunk boundaries)
+                def measure(o):
+                    self.fs.begin_op(None)
+                    try:
+                        o.to_cache('save_probe.cache')
+                    finally:
+                        self.fs.end_op()
+                    n = os.path.getsize('save_probe.cache')
+                    os.unlink('save_probe.cache')
+                    return n
+
+                objs = sized_copies(src, op.get('size_target', 1 << 16), measure)
+                if not objs:
+                    self.trace.log(ev='SAVE', step=self.step, skipped='cannot reach size')
+                    return
+                # the neighbours are saved (and read back) first, the best fit goes through the common path below
+                for o in objs[:-1]:
+                    rec0 = traj_record(o, raw=True)
+                    self.fs.begin_op(None)
+                    try:
+                        o.to_cache(f"save_{op['slot'] % 4}.cache")
+                    finally:
+                        self.fs.end_op()
+                    self.saves[op['slot'] % 4] = {'path': f"save_{op['slot'] % 4}.cache", 'state': 'complete', 'rec': rec0}
+                    self.oracle_checks += 1
+                    self.check_saved(op['slot'] % 4, via_seam=False)
+                obj = objs[-1]
+        except Violation:
+            raise
         except Exception as e:  # noqa: BLE001  (not C16's business)
             self.trace.log(ev='SAVE', step=self.step, skipped=True, derive_exc=type(e).__name__)
             return
